@@ -47,6 +47,10 @@ func devKeyFor(ind *reg.Indicator, cfg reg.Cfg, w int, inA, outA, inB, outB [][]
 	return ""
 }
 
+// discontinuous lists the indicators whose documented formula contains a
+// comparison between computed quantities.
+var discontinuous = map[string]bool{"volume.Mfi": true, "volume.Obv": true, "volume.Nvi": true, "trend.Aroon": true, "volatility.SuperTrend": true}
+
 var scalePairs = [][2]int{{-4, 2}, {2, 10}, {10, -4}, {2, 0}, {0, 2}}
 
 func c18Indicator(cc *run.Case, ind *reg.Indicator, cfg reg.Cfg, class string, n int) {
@@ -88,8 +92,16 @@ func c18Indicator(cc *run.Case, ind *reg.Indicator, cfg reg.Cfg, class string, n
 			cc.Count("values_compared_bit_exact", int64(len(base[j])))
 		}
 	}
-	// Decimal re-denomination (x100, x0.01): within rounding only.
+	// Decimal re-denomination (x100, x0.01): within rounding only. Formulas
+	// that branch on a comparison of computed quantities (sign of a change,
+	// "since the extreme changed", trend flips) are discontinuous exactly at
+	// ties, where a non-power-of-two factor may round the two sides apart:
+	// for them only the exact power-of-two relation above is claimed.
 	for _, f10 := range [][2]float64{{100, 0.01}, {0.01, 100}} {
+		if discontinuous[ind.Name] {
+			cc.Count("decimal_skipped_discontinuous_formula", 1)
+			break
+		}
 		scaledIn := scaleInputs(ind, inputs, f10[0], f10[1])
 		got := runInd(ind.New(cfg), scaledIn)
 		refS := ind.Ref(cfg, scaledIn)
